@@ -572,3 +572,519 @@ def rule_base_handle(ctx, rep: Report, rid="H4"):
                 s[:200], f"{rel}:{line}")
     if n < 2:
         raise AnalysisError(f"{rep.prop}/{rid}: {n} base-handle fragments found, 2 expected")
+
+
+# ==========================================================================================
+# C06
+def _loop_paths_increment(body: List[ast.stmt], counter: str) -> List[int]:
+    """Number of `counter += 1` executed along every path through one loop iteration."""
+    def walk(stmts, count) -> List[Tuple[int, bool]]:      # (count, iteration ended)
+        states = [(count, False)]
+        for st in stmts:
+            nxt = []
+            for c, done in states:
+                if done:
+                    nxt.append((c, True))
+                    continue
+                if isinstance(st, ast.AugAssign) and isinstance(st.target, ast.Name) and st.target.id == counter \
+                        and isinstance(st.op, ast.Add) and isinstance(st.value, ast.Constant) and st.value.value == 1:
+                    nxt.append((c + 1, False))
+                elif isinstance(st, (ast.Continue, ast.Break)):
+                    nxt.append((c, True))
+                elif isinstance(st, ast.If):
+                    nxt += walk(st.body, c) + walk(st.orelse, c)
+                elif isinstance(st, (ast.For, ast.While)) and any(isinstance(x, ast.AugAssign) and isinstance(x.target, ast.Name)
+                                                                   and x.target.id == counter for x in ast.walk(st)):
+                    nxt.append((-99, False))      # incremented inside a nested loop: not a per-argument counter
+                else:
+                    nxt.append((c, False))
+            states = nxt
+        return states
+    return sorted({c for c, _ in walk(body, 0)})
+
+
+def rule_index_alignment(ctx, rep: Report, rid="M1"):
+    ci, prog = mw(ctx)
+    n = 0
+    for name, start_want in (("_wrap_variable_arguments", 1), ("_wrap_method_check_statement", 1), ("_wrapper_unwrap_arguments", None)):
+        fn = prog.method("MatlabWrapper", name)
+        ap = func_params(fn)[1]
+        loops = [l for l in fn.body if isinstance(l, ast.For)]
+        main = next((l for l in loops if unparse(l.iter).replace(" ", "") in (f"{ap}.list()", f"enumerate({ap}.list(),1)", f"enumerate({ap}.list())")), None)
+        if main is None:
+            raise AnalysisError(f"{name}: loop over the argument list not found")
+        n += 1
+        it = unparse(main.iter).replace(" ", "")
+        loc = f"{ci.mod.rel}:{main.lineno}"
+        fo = Folder(prog, ci.mod, fn, ci)
+        idx_slots = set()
+        for c in ast.walk(main):
+            if isinstance(c, ast.Call) and isinstance(c.func, ast.Attribute) and c.func.attr == "format":
+                t = fo.fold(c)
+                if t is None:
+                    continue
+                lit = t.literal("@")
+                for s in t.slots():
+                    i = t.parts.index(s)
+                    before = t.parts[i - 1] if i > 0 and isinstance(t.parts[i - 1], str) else ""
+                    if before.endswith("varargin{") or before.endswith("in["):
+                        idx_slots.add(unparse(s.expr))
+        # the index may be handed to a helper that embeds it (self._unwrap_argument(arg, <index>, ...))
+        for c in ast.walk(main):
+            if isinstance(c, ast.Call) and unparse(c.func) == "self._unwrap_argument" and len(c.args) >= 2:
+                idx_slots.add(unparse(c.args[1]))
+        ivar0 = main.target.elts[0].id if isinstance(main.target, ast.Tuple) and isinstance(main.target.elts[0], ast.Name) else None
+        if it.startswith("enumerate(") and ivar0 in idx_slots:
+            ivar = ivar0
+            ok = it == f"enumerate({ap}.list(),{start_want})" and idx_slots == {ivar}
+            rep.add(rid, f"{name}:position index runs with the arguments (enumerate from 1) and is the one embedded", ok,
+                    f"loop {it}; embedded index expressions {sorted(idx_slots)}", loc)
+        else:
+            # manual counter
+            cands = {s for s in idx_slots}
+            if len(cands) != 1:
+                rep.add(rid, f"{name}:one position counter embedded", False, f"embedded index expressions {sorted(cands)}", loc)
+                continue
+            counter = next(iter(cands))
+            paths = _loop_paths_increment(main.body, counter)
+            rep.add(rid, f"{name}:position counter advances exactly once per argument on every path (including `continue`)",
+                    paths == [1], f"`{counter}` is incremented {paths} time(s) along the paths of one iteration: after a "
+                    f"path that does not advance it, every later argument is checked / unwrapped at the wrong position", loc)
+            if start_want is not None:
+                init = [unparse(st.value) for st in local_assignments(fn).get(counter, []) if isinstance(st, ast.Assign)]
+                rep.add(rid, f"{name}:counter starts at {start_want}", init == [str(start_want)], f"initialised to {init}", loc)
+    ua = prog.method("MatlabWrapper", "_unwrap_argument")
+    ip = func_params(ua)[2]
+    fo = Folder(prog, ci.mod, ua, ci)
+    embedded = set()
+    nin = 0
+    for c in ast.walk(ua):
+        if isinstance(c, ast.Call) and isinstance(c.func, ast.Attribute) and c.func.attr == "format":
+            t = fo.fold(c)
+            if t is None:
+                continue
+            for s_ in t.slots():
+                i = t.parts.index(s_)
+                if i > 0 and isinstance(t.parts[i - 1], str) and t.parts[i - 1].endswith("in["):
+                    embedded.add(unparse(s_.expr))
+                    nin += 1
+        elif isinstance(c, ast.JoinedStr):
+            vals = c.values
+            for j, v in enumerate(vals):
+                if isinstance(v, ast.FormattedValue) and j > 0 and isinstance(vals[j - 1], ast.Constant) and str(vals[j - 1].value).endswith("in["):
+                    embedded.add(unparse(v.value))
+                    nin += 1
+    rep.add(rid, "_unwrap_argument:every in[...] of the unwrap statement is the position it was given", embedded == {ip} and nin >= 5,
+            f"{nin} in[..] slots bound to {sorted(embedded)}", f"{ci.mod.rel}:{ua.lineno}")
+    # the count test uses the length of the same list
+    fn = prog.method("MatlabWrapper", "_wrap_method_check_statement")
+    ap = func_params(fn)[1]
+    fo = Folder(prog, ci.mod, fn, ci)
+    t = None
+    for st in fn.body:
+        if isinstance(st, ast.Assign):
+            tt = fo.fold(st.value)
+            if tt is not None and "length(varargin) ==" in tt.literal("@"):
+                t = tt
+    cnt = unparse(inline_locals(fn, t.slots()[0].expr)).replace(" ", "") if t is not None and t.slots() else None
+    rep.add(rid, "_wrap_method_check_statement:argument count compared with the length of the same list", cnt in (f"len({ap})", f"len({ap}.list())"),
+            f"count <- {cnt}", f"{ci.mod.rel}:{fn.lineno}")
+    if n < 3:
+        raise AnalysisError(f"{rep.prop}/{rid}: {n} loops")
+
+
+def _guard_builder_form(ctx, name: str) -> Tuple[List[str], List[Tuple[str, str]]]:
+    """Normal form of a MATLAB-side type-check builder: (type lookup chain, [(guard, appended text)])."""
+    ci, prog = mw(ctx)
+    fn = prog.method("MatlabWrapper", name)
+    ap = func_params(fn)[1]
+    main = next(l for l in fn.body if isinstance(l, ast.For) and f"{ap}.list()" in unparse(l.iter))
+    fo = Folder(prog, ci.mod, fn, ci)
+    avar = main.target.elts[1].id if isinstance(main.target, ast.Tuple) else main.target.id
+    # names
+    idx_names = set()
+    if isinstance(main.target, ast.Tuple) and unparse(main.iter).startswith("enumerate") and isinstance(main.target.elts[0], ast.Name):
+        if main.target.elts[0].id != "_":
+            idx_names.add(main.target.elts[0].id)
+    for st in fn.body:
+        if isinstance(st, ast.Assign) and isinstance(st.value, ast.Constant) and st.value.value == 1:
+            idx_names.add(st.targets[0].id)
+    type_var = None
+    name_var = None
+    for st in main.body:
+        if isinstance(st, ast.Assign) and "data_type_param.get" in unparse(st.value):
+            type_var = st.targets[0].id
+        if isinstance(st, ast.Assign) and unparse(st.value) == f"{avar}.ctype.typename.name":
+            name_var = st.targets[0].id
+
+    def ren(txt: str) -> str:
+        import re
+        for v in idx_names:
+            txt = re.sub(rf"\b{v}\b", "IDX", txt)
+        if type_var:
+            txt = re.sub(rf"\b{type_var}\b", "TYPE", txt)
+        if name_var:
+            txt = re.sub(rf"\b{name_var}\b", "NAME", txt)
+        txt = re.sub(rf"\b{avar}\b", "ARG", txt)
+        return txt
+    chain = []
+    appended = []
+    acc = None
+    for st in ast.walk(main):
+        if isinstance(st, ast.AugAssign) and isinstance(st.op, ast.Add) and isinstance(st.target, ast.Name) \
+                and not (isinstance(st.value, ast.Constant) and st.value.value == 1):
+            t = fo.fold(st.value)
+            if t is None:
+                continue
+            txt = "".join(p if isinstance(p, str) else "<" + ren(unparse(p.expr)) + ">" for p in t.parts)
+            gs = " & ".join(ren(g) for g, pol in guards_of(st, fn, include_exits=False) if pol)
+            appended.append((gs, txt))
+    for st in main.body:
+        if isinstance(st, ast.Assign) and type_var and st.targets[0].id == type_var if isinstance(st, ast.Assign) and isinstance(st.targets[0], ast.Name) else False:
+            chain.append(ren(unparse(st)))
+        elif isinstance(st, ast.If) and "not_check_type" in unparse(st.test):
+            continue            # the skip list (its index bookkeeping is M1's business)
+        elif isinstance(st, ast.If) and type_var and type_var in unparse(st.test):
+            body = "; ".join(ren(unparse(b)) for b in st.body)
+            # the constructor flavour flag is irrelevant when data_type's keys are a subset of data_type_param's
+            import re
+            body = re.sub(r",\s*is_constructor=[^)]*", "", body)
+            chain.append(f"if {ren(unparse(st.test))}: {body}")
+    return chain, sorted(appended)
+
+
+def rule_sibling_guards(ctx, rep: Report, rid="M2"):
+    ci, prog = mw(ctx)
+    a = _guard_builder_form(ctx, "_wrap_variable_arguments")
+    b = _guard_builder_form(ctx, "_wrap_method_check_statement")
+    rep.add(rid, "the two MATLAB-side type-check builders resolve the MATLAB class of an argument by the same chain", a[0] == b[0] and len(a[0]) >= 3,
+            f"_wrap_variable_arguments: {a[0]} ; _wrap_method_check_statement: {b[0]}", f"{ci.mod.rel}:0")
+    rep.add(rid, "the two builders append the same per-argument tests (isa + Vector/Point2/Point3 shape tests)", a[1] == b[1] and len(a[1]) >= 6,
+            f"only in constructor/function flavour: {[x for x in a[1] if x not in b[1]][:3]}; only in method flavour: "
+            f"{[x for x in b[1] if x not in a[1]][:3]}", f"{ci.mod.rel}:0")
+    init = prog.method("MatlabWrapper", "__init__")
+    tables = {}
+    for st in walk_no_nested(init):
+        if isinstance(st, ast.Assign) and unparse(st.targets[0]) in ("self.data_type", "self.data_type_param") and isinstance(st.value, ast.Dict):
+            tables[unparse(st.targets[0])] = {k.value for k in st.value.keys if isinstance(k, ast.Constant)}
+    ok = "self.data_type" in tables and tables["self.data_type"] <= tables.get("self.data_type_param", set())
+    rep.add(rid, "type tables:every key of data_type is a key of data_type_param (the constructor flavour of the fallback is unreachable for them)",
+            ok, f"data_type - data_type_param = {sorted(tables.get('self.data_type', set()) - tables.get('self.data_type_param', set()))}",
+            f"{ci.mod.rel}:{init.lineno}")
+
+
+def _gc_canon(gc):
+    """Canonical names for the key locals of generate_collector_function, found by what they are
+    bound to (never by how they are called)."""
+    mp: Dict[str, str] = {}
+    la = local_assignments(gc)
+    for name, sts in la.items():
+        for st in sts:
+            if not isinstance(st, ast.Assign):
+                continue
+            v = st.value
+            if isinstance(v, ast.Subscript) and isinstance(v.slice, ast.Constant) and v.slice.value == 4:
+                mp[name] = "extra"
+            if isinstance(v, ast.Call) and unparse(v.func) == "self.wrapper_map.get":
+                mp[name] = "collector_func"
+    for name, sts in la.items():
+        for st in sts:
+            if isinstance(st, ast.Assign) and isinstance(st.value, ast.Call) and unparse(st.value.func) == "isinstance" \
+                    and isinstance(st.value.args[0], ast.Name) and mp.get(st.value.args[0].id) == "extra":
+                k = unparse(st.value.args[1]).split(".")[-1]
+                mp[name] = {"Method": "is_method", "StaticMethod": "is_static_method", "Variable": "is_property"}.get(k, name)
+
+    def canon(text: str) -> str:
+        for a, b in mp.items():
+            text = _re.sub(rf"\b{_re.escape(a)}\b", b, text)
+        return text
+    return canon
+
+
+def rule_receiver_offset(ctx, rep: Report, rid="M3"):
+    ci, prog = mw(ctx)
+    gc = prog.method("MatlabWrapper", "generate_collector_function")
+    loc = f"{ci.mod.rel}:{gc.lineno}"
+    wua = prog.method("MatlabWrapper", "_wrapper_unwrap_arguments")
+    default_start = unparse(wua.args.defaults[0]) if wua.args.defaults else None
+    calls = [c for c in ast.walk(gc) if isinstance(c, ast.Call) and unparse(c.func) == "self._wrapper_unwrap_arguments"]
+
+    canon = _gc_canon(gc)
+
+    def role_of(node) -> str:
+        gs = [canon(g) for g, pol in guards_of(node, gc, include_exits=False)]
+        for g in reversed(gs):
+            if "'constructor'" in g:
+                return "constructor"
+            if "is_method or is_static_method" in g:
+                return "method/static"
+            if "is_property" in g:
+                return "property"
+        if any(not pol and "isinstance(collector_func[1]" in canon(g) for g, pol in guards_of(node, gc, include_exits=False)):
+            return "function"
+        return "?"
+    by_role = {}
+    for c in calls:
+        by_role.setdefault(role_of(c), []).append(c)
+    # method / static
+    ms = by_role.get("method/static", [])
+    ok = False
+    detail = ""
+    if len(ms) == 1:
+        kw = {k.arg: k.value for k in ms[0].keywords}
+        start = canon(unparse(kw["arg_id"])).replace(" ", "") if "arg_id" in kw else default_start
+        fo = Folder(prog, ci.mod, gc, ci)
+        tpl = None
+        for st in ast.walk(gc):
+            if isinstance(st, ast.AugAssign):
+                t = fo.fold(st.value)
+                if t is not None and t.slot("min1") is not None and t.slot("num_args") is not None and t.slot("body_args") is not None:
+                    tpl = t
+        if tpl is not None:
+            min1 = canon(unparse(tpl.slot("min1").expr)).replace(" ", "")
+            na = canon(unparse(tpl.slot("num_args").expr)).replace(" ", "")
+            so = [st for st in ast.walk(gc) if isinstance(st, ast.Assign) and "unwrap_shared_ptr" in unparse(st.value) and "in[0]" in unparse(st.value)
+                  and role_of(st) == "method/static"]
+            so_guard = canon([g for g, pol in guards_of(so[0], gc, include_exits=False) if pol][-1]) if so else None
+            ok = start == "1ifis_methodelse0" and min1 == "'-1'ifis_methodelse''" and na == f"len({canon(unparse(ms[0].args[0]))}.list())" \
+                and so_guard == "is_method"
+            detail = f"unwrap start {start}; nargin adjustment {min1}; expected count {na}; receiver unwrapped under {so_guard}"
+    rep.add(rid, "method vs static routine:receiver in in[0] <=> arguments from in[1] <=> nargin-1, expected count = len of the unwrapped list", ok, detail, loc)
+    # constructor & function: start 0, no adjustment
+    for role in ("constructor", "function"):
+        cs = by_role.get(role, [])
+        ok = len(cs) >= 1 and all(not any(k.arg == "arg_id" for k in c.keywords) and len(c.args) == 1 for c in cs) and default_start == "0"
+        rep.add(rid, f"{role} routine:arguments unwrapped from in[0]", ok,
+                f"calls {[unparse(c)[:70] for c in cs]}, default start {default_start}", loc)
+    # checkArguments of the function routine
+    txt = unparse(gc)
+    rep.add(rid, "function routine:expected count is the length of the unwrapped list",
+            "checkArguments(\"{function_name}\",nargout,nargin,{len});" in txt.replace("\\n", "") or
+            ("nargin,{len}" in txt and "len=len(collector_func[1].args.list())" in txt.replace(" ", "").replace("len=len", "len=len")),
+            "", loc, nontrivial=False)
+    # property
+    ua = [c for c in ast.walk(gc) if isinstance(c, ast.Call) and unparse(c.func) == "self._unwrap_argument" and role_of(c) == "property"]
+    kw = {k.arg: unparse(k.value) for k in ua[0].keywords} if ua else {}
+    nums = sorted(unparse(k.value) for c in ast.walk(gc) if isinstance(c, ast.Call) and isinstance(c.func, ast.Attribute) and c.func.attr == "format"
+                  and role_of(c) == "property" for k in c.keywords if k.arg == "num_args")
+    mins = sorted({unparse(k.value) for c in ast.walk(gc) if isinstance(c, ast.Call) and isinstance(c.func, ast.Attribute) and c.func.attr == "format"
+                   and role_of(c) == "property" for k in c.keywords if k.arg == "min1"})
+    rep.add(rid, "property routines:value read from in[1]; getter expects 0, setter 1 argument besides the receiver",
+            kw.get("arg_id") == "1" and nums == ["0", "1"] and mins == ["'-1'"], f"value index {kw.get('arg_id')}, expected counts {nums}, nargin adjustment {mins}", loc)
+    # .m side: is `this` passed?
+    checks = [
+        ("wrap_class_methods", "method .m call passes the receiver then the arguments", r"\(@, this, varargin\{:\}\)"),
+        ("wrap_static_methods", "static .m call passes the arguments only", r"\(@, varargin\{:\}\)"),
+        ("wrap_global_function", "function .m call passes the arguments only", r"_wrapper\(@, varargin\{:\}\)"),
+        ("wrap_class_properties", "getter .m call passes the receiver only", r"\(@, this\);"),
+        ("wrap_class_properties", "setter .m call passes the receiver and the value", r"\(@, this, value\);"),
+        ("wrap_class_deconstructor", "delete .m call passes the handle only", r"\(@, obj\.ptr_@\);"),
+    ]
+    for meth, what, pat in checks:
+        fn = prog.method("MatlabWrapper", meth)
+        fo = Folder(prog, ci.mod, fn, ci)
+        hit = False
+        for c in ast.walk(fn):
+            if isinstance(c, ast.Call) and isinstance(c.func, ast.Attribute) and c.func.attr == "format":
+                t = fo.fold(c)
+                if t is not None and _re.search(pat, t.literal("@")):
+                    hit = True
+        rep.add(rid, f"{what}", hit, f"no template of {meth} matches {pat}", f"{ci.mod.rel}:{fn.lineno}")
+    # constructor .m call: id then the listed arguments
+    fn = prog.method("MatlabWrapper", "wrap_class_constructors")
+    fo = Folder(prog, ci.mod, fn, ci)
+    hit = False
+    for c in ast.walk(fn):
+        if isinstance(c, ast.Call) and isinstance(c.func, ast.Attribute) and c.func.attr == "format":
+            t = fo.fold(c)
+            if t is not None and t.slot("var_arg") is not None:
+                lit = t.literal("@")
+                hit = "@@(@@@);" in lit.replace(" ", "") and unparse(t.slot("var_arg").expr).startswith("self._wrap_list_variable_arguments(")
+    rep.add(rid, "constructor .m call passes the id then varargin{1..n}", hit, "", f"{ci.mod.rel}:{fn.lineno}")
+
+
+def rule_defaults(ctx, rep: Report, rid="M4"):
+    ci, prog = mw(ctx)
+    fn = prog.method("MatlabWrapper", "_expand_default_arguments")
+    loc = f"{ci.mod.rel}:{fn.lineno}"
+    mp, sb = func_params(fn)[0], func_params(fn)[1]
+    body = [st for st in fn.body if not isinstance(st, (ast.FunctionDef, ast.Expr))]
+    backup = [st for st in body if isinstance(st, ast.If) and unparse(st.test) == sb and any(".backup" in unparse(x) for x in st.body)]
+    loops = [st for st in body if isinstance(st, ast.For)]
+    ok_backup = len(backup) == 1 and bool(loops) and backup[0].lineno < loops[0].lineno
+    rep.add(rid, "defaults:the full argument list is saved once, by the outermost call, before anything is removed", ok_backup,
+            f"backup statement(s): {[unparse(b.test) for b in backup]}", loc)
+    ok_loop = False
+    detail = ""
+    if loops:
+        l = loops[0]
+        it = unparse(l.iter).replace(" ", "")
+        v = l.target.id
+        inner_if = [s for s in l.body if isinstance(s, ast.If)]
+        ends_break = isinstance(l.body[-1], ast.Break)
+        rec = [c for c in ast.walk(l) if isinstance(c, ast.Call) and unparse(c.func).endswith("_expand_default_arguments")]
+        rec_ok = len(rec) == 1 and any(k.arg == sb and unparse(k.value) == "False" for k in rec[0].keywords)
+        rem = [c for c in ast.walk(l) if isinstance(c, ast.Call) and isinstance(c.func, ast.Attribute) and c.func.attr == "remove"
+               and unparse(c.args[0]) == v]
+        ok_loop = it == f"reversed({mp}.args.list())" and len(inner_if) == 1 and unparse(inner_if[0].test) == f"{v}.default is not None" \
+            and ends_break and rec_ok and len(rem) == 1
+        detail = f"iterates {it}; test {[unparse(i.test) for i in inner_if]}; ends with break: {ends_break}; recursion keeps backup: {rec_ok}; removes the tail argument: {len(rem) == 1}"
+    rep.add(rid, "defaults:peels defaulted arguments from the tail, one arity per call, stopping at the first non-defaulted one", ok_loop, detail, loc)
+    wu = prog.method("MatlabWrapper", "_wrapper_unwrap_arguments")
+    ap = func_params(wu)[1]
+    l2 = [l for l in wu.body if isinstance(l, ast.For) and unparse(l.iter) == f"{ap}.backup.list()"]
+    ok2 = False
+    if l2:
+        v = l2[0].target.id
+        tests = [i for i in l2[0].body if isinstance(i, ast.If) and any(isinstance(x, ast.Continue) for x in i.body)]
+        ok2 = len(tests) == 1 and unparse(tests[0].test).replace(" ", "").replace("(", "").replace(")", "") == \
+            f"{v}.defaultisnotNoneand{v}.namenotinexplicit_arg_names".replace("explicit_arg_names", _explicit_names_var(wu, ap)) \
+            and any(isinstance(x, ast.AugAssign) and unparse(x.value) == f"{v}.default" for x in tests[0].body)
+    rep.add(rid, "defaults:the call's parameter list is rebuilt from the saved full list, inserting the original default text exactly for omitted parameters",
+            ok2, "loop over args.backup.list() with `default is not None and name not in <explicit names>` -> default text", f"{ci.mod.rel}:{wu.lineno}")
+
+
+def _explicit_names_var(fn, ap) -> str:
+    for st in walk_no_nested(fn):
+        if isinstance(st, ast.Assign) and isinstance(st.value, ast.ListComp) and unparse(st.value.generators[0].iter) == f"{ap}.list()" \
+                and unparse(st.value.elt).endswith(".name"):
+            return st.targets[0].id
+    return "?"
+
+
+def rule_one_id_per_arity(ctx, rep: Report, rid="M5"):
+    ci, prog = mw(ctx)
+    n = 0
+    for meth in ("wrap_class_constructors", "wrap_class_methods", "wrap_static_methods", "wrap_global_function"):
+        fn = prog.method("MatlabWrapper", meth)
+        # innermost loops over overloads
+        allocs = []
+        for c in walk_no_nested(fn):
+            if isinstance(c, ast.Call) and unparse(c.func) == "self._update_wrapper_id":
+                tup = c.args[0] if c.args else next((k.value for k in c.keywords if k.arg == "collector_function"), None)
+                if isinstance(tup, ast.Tuple):
+                    allocs.append((c, tup))
+        per_overload = []
+        for c, tup in allocs:
+            payload = tup.elts[3] if len(tup.elts) == 4 else None
+            l = enclosing(c, ast.For)
+            if l is None:
+                continue
+            lv = {x.id for x in ast.walk(l.target) if isinstance(x, ast.Name)}
+            pv = {x.id for x in ast.walk(payload) if isinstance(x, ast.Name)} if payload is not None else set()
+            ov = {x.id for x in ast.walk(tup.elts[1]) if isinstance(x, ast.Name)}
+            if lv & (pv | ov):
+                per_overload.append((c, l))
+        n += len(per_overload)
+        ok = len(per_overload) >= 1
+        # the overload list comes from the default expansion (directly, or through _group_methods in the caller)
+        src_ok = "_expand_default_arguments" in unparse(fn) or "_group" in unparse(fn) or meth == "wrap_global_function"
+        rep.add(rid, f"{meth}:every arity of the expanded overload list allocates its own gateway id inside the loop over overloads",
+                ok and src_ok, f"{len(per_overload)} allocation(s) inside overload loops", f"{ci.mod.rel}:{fn.lineno}")
+    gm = prog.method("MatlabWrapper", "_group_methods")
+    calls = [c for c in walk_no_nested(gm) if isinstance(c, ast.Call) and unparse(c.func).endswith("_expand_default_arguments")]
+    rep.add(rid, "_group_methods:every method is expanded into its arities (first occurrence and later overloads alike)", len(calls) == 2,
+            f"{len(calls)} expansion calls", f"{ci.mod.rel}:{gm.lineno}")
+    if n < 4:
+        raise AnalysisError(f"{rep.prop}/{rid}: {n} per-overload allocation sites")
+
+
+def rule_return_shapes(ctx, rep: Report, rid="M6"):
+    ci, prog = mw(ctx)
+    rc = prog.method("MatlabWrapper", "_return_count")
+    txt = unparse(rc.body[-1]).replace(" ", "")
+    rep.add(rid, "_return_count:2 iff a second return type is present", txt == f"return1if{func_params(rc)[0]}.type2==''else2", txt,
+            f"{ci.mod.rel}:{rc.lineno}")
+    fn = prog.method("MatlabWrapper", "wrap_collector_function_return")
+    top = [i for i in fn.body if isinstance(i, ast.If)]
+    shape_ok = False
+    detail = ""
+    for i in top:
+        if "!= 'void'" in unparse(i.test):
+            inner = [x for x in i.body if isinstance(x, ast.If)]
+            if inner:
+                t1 = unparse(inner[0].test).replace(" ", "")
+                t2 = unparse(inner[0].orelse[0].test).replace(" ", "") if inner[0].orelse and isinstance(inner[0].orelse[0], ast.If) else ""
+                calls2 = [c for c in ast.walk(inner[0].orelse[0]) if isinstance(c, ast.Call) and unparse(c.func) == "self.wrap_collector_function_return_types"] \
+                    if t2 else []
+                idxs = [unparse(c.args[1]) for c in calls2]
+                srcs = [unparse(inline_locals(fn, c.args[0])) for c in calls2]
+                void_branch = any(isinstance(s, ast.AugAssign) and "';'" in unparse(s.value) for s in i.orelse)
+                shape_ok = t1.endswith("==1") and t2.endswith("==2") and idxs == ["0", "1"] and \
+                    srcs[0].endswith("return_type.type1") and srcs[1].endswith("return_type.type2") and void_branch
+                detail = f"tests {t1}, {t2}; pair slots {list(zip(srcs, idxs))}; void emits the bare call: {void_branch}"
+    rep.add(rid, "return dispatch:void -> bare call; one value -> out[0]; pair -> first/second to out[0]/out[1]", shape_ok, detail,
+            f"{ci.mod.rel}:{fn.lineno}")
+    rt = prog.method("MatlabWrapper", "wrap_collector_function_return_types")
+    p = func_params(rt)[2]
+    t = unparse(rt)
+    sel = [x for x in ast.walk(rt) if isinstance(x, ast.IfExp) and isinstance(x.body, ast.Constant) and x.body.value == "first"
+           and isinstance(x.orelse, ast.Constant) and x.orelse.value == "second" and unparse(x.test).replace(" ", "") == f"{p}==0"]
+    ok = len(sel) == 1 and f"'  out[' + str({p}) + '] = '" in t
+    rep.add(rid, "pair slots:element k of the pair goes to out[k] (first -> 0, second -> 1)", ok, "", f"{ci.mod.rel}:{rt.lineno}")
+    fv = prog.method("MatlabWrapper", "_format_varargout")
+    t = unparse(fv)
+    rep.add(rid, "MATLAB side:no output for void, one for a single value, two for a pair",
+            "'varargout{1} = '" in t and "'[ varargout{1} varargout{2} ] = '" in t and "== 'void'" in t, "", f"{ci.mod.rel}:{fv.lineno}",
+            nontrivial=False)
+
+
+def rule_marshalling_table(ctx, rep: Report, rid="M7"):
+    ci, prog = mw(ctx)
+    ua = prog.method("MatlabWrapper", "_unwrap_argument")
+    chain = []
+    node = next((s for s in ua.body if isinstance(s, ast.If)), None)
+    while isinstance(node, ast.If):
+        t = unparse(node.test)
+        kind = "enum" if "is_enum" in t else "ref" if "is_ref" in t else "ptr" if "self.is_ptr" in t and "is_shared_ptr" not in t else \
+            "shared" if "is_shared_ptr" in t else "?"
+        fn_used = next((f for f in ("unwrap_enum", "unwrap_shared_ptr", "unwrap_ptr", "unwrap<") if any(f in unparse(b) for b in node.body)), "?")
+        deref = any("'*unwrap_shared_ptr" in unparse(b) for b in node.body)
+        chain.append((kind, fn_used, deref))
+        if node.orelse and not isinstance(node.orelse[0], ast.If):
+            fn_used = "unwrap<" if any("unwrap<" in unparse(b) or "'unwrap< " in unparse(b) for b in node.orelse) else "?"
+            chain.append(("value", fn_used, False))
+            break
+        node = node.orelse[0] if node.orelse else None
+    want = [("enum", "unwrap_enum", False), ("ref", "unwrap_shared_ptr", True), ("ptr", "unwrap_ptr", False),
+            ("shared", "unwrap_shared_ptr", False), ("value", "unwrap<", False)]
+    rep.add(rid, "unwrap table:enum, reference, raw pointer, shared/object, value - in this priority, each with its unwrap function", chain == want,
+            f"found {chain}", f"{ci.mod.rel}:{ua.lineno}")
+    wu = prog.method("MatlabWrapper", "_wrapper_unwrap_arguments")
+    t = unparse(wu).replace(" ", "").replace("\n", "")
+    cond_ok = "notself.is_ref(" in t and "self.is_shared_ptr(" in t and "self.is_ptr(" in t and "self.can_be_pointer(" in t and "notself.is_enum(" in t
+    star_ok = False
+    for a in ast.walk(wu):
+        if isinstance(a, ast.AugAssign) and isinstance(a.value, ast.Constant) and a.value.value == "*":
+            gs = [g for g, pol in guards_of(a, wu, include_exits=False) if pol]
+            if gs and gs[-1].replace(" ", "").endswith("==''"):
+                marker = gs[-1].split("==")[0].strip()
+                srcs = sorted(unparse(st.value) for st in local_assignments(wu).get(marker, []) if isinstance(st, ast.Assign))
+                star_ok = len(srcs) == 2 and srcs[0].endswith(".ctype.is_ptr") and srcs[1].endswith(".ctype.is_shared_ptr")
+    rep.add(rid, "call expression:a by-value parameter held in a pointer-like local is dereferenced, pointers / references / enums / values are passed as they are",
+            cond_ok and star_ok, f"predicates present: {cond_ok}; `*` exactly when neither * nor @ marker: {star_ok}", f"{ci.mod.rel}:{wu.lineno}")
+    # every role that unwraps arguments supplies the enum-resolution context
+    gc = prog.method("MatlabWrapper", "generate_collector_function")
+    n = 0
+    for c in sorted((x for x in ast.walk(gc) if isinstance(x, ast.Call) and unparse(x.func) in (
+            "self._wrapper_unwrap_arguments", "self._unwrap_argument", "self.wrap_collector_function_return",
+            "self.wrap_collector_property_return")), key=lambda x: x.lineno):
+        n += 1
+        fn = prog.method("MatlabWrapper", c.func.attr)
+        try:
+            b = bind_call(fn, c, drop_self=True)
+        except AnalysisError as e:
+            rep.add(rid, f"context:{c.func.attr}", False, str(e), f"{ci.mod.rel}:{c.lineno}")
+            continue
+        ctxp = "instantiated_class"
+        canon7 = _gc_canon(gc)
+        gs = [canon7(g) for g, pol in guards_of(c, gc, include_exits=False)]
+        role = "free function" if any((not pol) and "isinstance(collector_func[1]" in canon7(g) for g, pol in guards_of(c, gc, include_exits=False)) else \
+            next((r for r in ("constructor", "property", "method/static") if any(r.split("/")[0] in g or ("is_method" in g and r == "method/static") for g in gs)), "class member")
+        ok = ctxp in b and not (isinstance(b[ctxp], ast.Constant) and b[ctxp].value is None)
+        rep.add(rid, f"enum context:{role}:{c.func.attr}", ok,
+                f"`{unparse(c)[:70]}` passes no class/namespace context, so is_enum() is never true for this role: an enum "
+                f"parameter of a free function is unwrapped with unwrap_shared_ptr<Enum> and returned through wrap_shared_ptr, "
+                f"while the same signature as a method uses unwrap_enum / wrap_enum", f"{ci.mod.rel}:{c.lineno}")
+    if n < 6:
+        raise AnalysisError(f"{rep.prop}/{rid}: {n} unwrap/return call sites in generate_collector_function, 6 expected")
